@@ -82,6 +82,7 @@ class Interp:
         self.merge = False
         self.region = None
         self.merge_modules = set(merge_modules)
+        self.merge_funcs = set()  # qualnames of Python functions that are executed in merge mode (regions)
         self.overrides = {}      # qualname -> stub(interp, *args) replacing an interpreted function (listed in the evidence)
         self.subst = {}          # id(live object) -> interpreted replacement
         self.native_ok = set()   # ids of live callables that may be called natively with concrete args
@@ -256,6 +257,12 @@ class Interp:
         m.live = live
         for k, v in m.globals.items():
             if isinstance(v, (IClass, IFunc)) and hasattr(live, k):
+                if isinstance(v, IFunc) and any(isinstance(x, (ast.Yield, ast.YieldFrom)) for x in ast.walk(v.node)):
+                    # generator functions (hamming_sphere, edit_environment) are only ever called with concrete
+                    # arguments: the compiled originals of the shadow build are used
+                    m.globals[k] = getattr(live, k)
+                    self.native_ok.add(id(getattr(live, k)))
+                    continue
                 self.subst[id(getattr(live, k))] = v
 
     # ---------------------------------------------------------------- statements
@@ -271,6 +278,16 @@ class Interp:
             raise Unsupported("statement %s (line %s)" % (type(s).__name__, getattr(s, "lineno", "?")))
         try:
             m(s)
+        except Exception as e:  # noqa
+            # an exception raised by a model / native operation while executing under a symbolic guard is an
+            # outcome of that guard only: park it in the region like an interpreted raise
+            if self.merge and self.region is not None and self.g is FALSE:
+                pass   # raised while finishing a statement whose guard had already become false: dead code
+            elif self.merge and self.region is not None and not self.absg().is_true():
+                self.region.excs.append((self.absg(), e))
+                self.g = FALSE
+            else:
+                raise
         except (Unsupported, Inconclusive) as e:
             if not getattr(e, "located", False):
                 e.located = True
@@ -585,7 +602,9 @@ class Interp:
                 yield None, x
             return
         if isinstance(it, Union):
-            raise Unsupported("iteration over a union")
+            it = self.narrow(it, lambda x: isinstance(x, (tuple, list)), "iteration")
+            if isinstance(it, Union):
+                raise Unsupported("iteration over a union of sequences of different shapes")
         if isinstance(it, Obj):
             raise Unsupported("iteration over interpreter object")
         if V.is_sym(it):
@@ -687,9 +706,11 @@ class Interp:
 
     def x_Try(self, s):
         if self.merge and not self.absg().is_true():
-            raise Unsupported("try statement under a symbolic guard")
+            return self.x_Try_merge(s)
         try:
             try:
+                if self.merge:
+                    return self.x_Try_merge(s, guard_true=True)
                 self.exec_block(s.body)
             except Exception as e:  # noqa - interpreter control exceptions are BaseException
                 exc = e
@@ -717,6 +738,48 @@ class Interp:
                 self.exec_block(s.finalbody)
                 if saved is FALSE and self.g is not FALSE:
                     self.g = saved
+
+    def x_Try_merge(self, s, guard_true=False):
+        """try/except inside a merge region: exceptions parked in the region during the body that match a handler
+        are taken out again and the handler runs under the disjunction of their guards."""
+        if s.finalbody:
+            raise Unsupported("try/finally in merge mode")
+        region = self.region
+        n0 = len(region.excs)
+        g_entry = self.g
+        caught_now = None
+        try:
+            self.exec_block(s.body)
+        except Exception as e:  # raised under a concretely true guard
+            if not guard_true:
+                raise
+            caught_now = e
+        g_body = self.g if caught_now is None else FALSE
+        new = region.excs[n0:]
+        del region.excs[n0:]
+        outs = [g_body]
+        if caught_now is not None:
+            new = [(self.absg() if False else G(()), caught_now)] + new
+        remaining = []
+        for h in s.handlers:
+            t = self.eval(h.type) if h.type is not None else None
+            mine = [(g, e) for g, e in new if t is None or self.exc_matches(e, t)]
+            new = [(g, e) for g, e in new if not (t is None or self.exc_matches(e, t))]
+            if not mine:
+                continue
+            if h.name:
+                raise Unsupported("named exception handler in merge mode")
+            cond = z3.Or(*[g.e for g, _ in mine]) if len(mine) > 1 else mine[0][0].e
+            self.g = g_and(g_entry, cond)
+            if self.g is not FALSE:
+                self.exec_block(h.body)
+                outs.append(self.g)
+        region.excs.extend(new)
+        if s.orelse and g_body is not FALSE:
+            self.g = g_body
+            self.exec_block(s.orelse)
+            outs[0] = self.g
+        self.g = g_or(outs)
 
     def exc_matches(self, exc, t):
         if isinstance(t, tuple):
@@ -1042,11 +1105,27 @@ class Interp:
             raise AttributeError(name)
         if isinstance(obj, SuperProxy):
             return obj.getattr(self, name)
-        if isinstance(obj, (SStr, self.models.ISet, self.models.IDict, Union, SInt, SBool)) or (
+        if isinstance(obj, (SStr, self.models.ISet, self.models.IDict, SInt, SBool)) or (
                 isinstance(obj, (str, bytes, list, dict, set, frozenset, tuple)) and name in self.models.METHOD_MODELS.get(type(obj).__name__, ())):
             return self.models.BoundModel(obj, name)
         if isinstance(obj, Union):
-            raise Unsupported("attribute %s of a union" % name)
+            vals = []
+            drop = []
+            for c, x in obj.alts:
+                if x is None:
+                    drop.append(c)
+                    continue
+                vals.append((c, self.getattr(x, name)))
+            if vals and all(isinstance(v, (IMethod, IFunc, self.models.BoundModel)) or callable(v) for _, v in vals):
+                return UnionAttr(obj, name)
+            if drop:
+                self.oblige(neg(z3.Or(*drop)) if len(drop) > 1 else neg(drop[0]), "attribute '%s' of None" % name, "type")
+            if not vals:
+                raise AttributeError(name)
+            v = vals[-1][1]
+            for c, x in reversed(vals[:-1]):
+                v = merge(c, x, v)
+            return v
         if V.is_sym(obj):
             raise Unsupported("attribute %s of %r" % (name, obj))
         if isinstance(obj, IFunc):
@@ -1127,8 +1206,9 @@ class Interp:
             v = self.coerce(v, ct, "%s.%s" % (obj.stype, name))
             old = obj.fields[name]
             if a.is_true() or isinstance(old, Indeterminate):
-                # a store under a guard into indeterminate memory: the old content is arbitrary anyway
-                obj.fields[name] = v if a.is_true() or not isinstance(old, Indeterminate) else merge(a.e, v, self.materialise(old, ct, self.frame.module), a)
+                # a guarded store into indeterminate memory: where the guard is false the content stays arbitrary,
+                # and "the stored value" is one such arbitrary content (keeps intervals finite; see DESIGN 2.1)
+                obj.fields[name] = v
             else:
                 obj.fields[name] = self.merge_typed(ct, a.e, v, old, a)
             return
@@ -1154,6 +1234,8 @@ class Interp:
             return f(self, args, kwargs)
         if isinstance(f, self.models.Extern):
             return f.fn(self, *args, **kwargs)
+        if isinstance(f, UnionAttr):
+            return f.call(self, args, kwargs)
         if isinstance(f, Union):
             raise Unsupported("call of a union of callables")
         if isinstance(f, type):
@@ -1200,7 +1282,7 @@ class Interp:
         if ov is not None:
             return ov(self, *args, **kwargs)
         is_region_entry = False
-        if not self.merge and f.module.name in self.merge_modules:
+        if not self.merge and (f.module.name in self.merge_modules or f.qualname in self.merge_funcs):
             is_region_entry = True
         if is_region_entry:
             return self.run_region(f, args, kwargs)
@@ -1698,6 +1780,37 @@ class _ChainEnv(dict):
         if k in self:
             return self[k]
         return d
+
+
+class UnionAttr:
+    """obj.name where obj is a union of objects: reads and calls distribute over the alternatives."""
+
+    def __init__(self, u, name):
+        self.u = u
+        self.name = name
+
+    def call(self, it, args, kwargs):
+        g0 = it.g
+        outs, gs = [], []
+        for c, x in self.u.alts:
+            gi = g_and(g0, c)
+            if gi is FALSE:
+                continue
+            if x is None:
+                it.g = gi
+                it.do_raise(AttributeError("'NoneType' object has no attribute '%s'" % self.name))
+                continue
+            it.g = gi
+            r = it.call_value(it.getattr(x, self.name), list(args), dict(kwargs))
+            outs.append((c, r))
+            gs.append(it.g)
+        it.g = g_or(gs)
+        if not outs:
+            return None
+        v = outs[-1][1]
+        for c, x in reversed(outs[:-1]):
+            v = merge(c, x, v)
+        return v
 
 
 class SuperProxy:
